@@ -3,6 +3,7 @@ import Gtree.Lemmas.HeapWasm
 import Gtree.Props.C14
 import Gtree.Lemmas.Output
 import Gtree.Model.Wasm
+import Gtree.Lemmas.GenFacts
 /-
   C17 — the tinywasm variant (name baked into the branch string, concatenation, one buffered write,
   batch generator) makes the same accept/reject decision and produces the same bytes as the default
@@ -142,4 +143,14 @@ theorem C17_twins_are_the_source (dg : SrcH.defaultGrower) (ds : SrcH.defaultSpr
       (SrcH.expErr (SrcH.toSimple dg) (growRoot (SrcH.fmtOf (SrcH.toSimple dg)) t) = none →
         SrcH.defaultSpreader.spreadBranch fuel h' ds r = some (wasmSpreadBranch (SrcH.fmtOf (SrcH.toSimple dg)) t)) :=
   SrcH.wasm_grow_then_spread dg ds t h r fuel hr hnd hf
+end Gtree
+
+namespace Gtree
+
+/-- **C17 (facts: the tinywasm generator).**  The row loop of the tinywasm build's generator is, token for token, the
+    loop of the default build's `rootGeneratorSimple.generate`. -/
+theorem C17_facts_wasm_generator_loop_is_the_default_one :
+    lookupL "rootGenerator.generate" Facts.genSkeleton = lookupL "rootGeneratorSimple.generate" Facts.genSkeleton ∧
+    (lookupL "rootGenerator.generate" Facts.genSkeleton).length = 27 := by decide
+
 end Gtree
